@@ -320,7 +320,9 @@ impl<'a> ProgGen<'a> {
         self.data.push(Data { name: "k".into(), val: V::Num(r.range(1, 12) as f64 / 2.0) });
         self.data.push(Data { name: "flag".into(), val: V::Bool(r.chance(1, 2)) });
         if self.cfg.graphs {
-            let names = ["P", "Q", "R", "T2"];
+            // names whose declaration order, numeric order and byte order all differ ("B" < "S" < "n10" < "n2"), and
+            // adjacency lists written in random order: the order of edges(G) / neigh_edges(n) is the literal's
+            let names = ["S", "n2", "B", "n10"];
             let nn = 2 + r.below(3);
             let weighted = r.chance(1, 2);
             let mut nodes = vec![];
@@ -332,6 +334,7 @@ impl<'a> ProgGen<'a> {
                         edges.push(GEdge { from: names[i].into(), to: names[j].into(), w });
                     }
                 }
+                for k in (1..edges.len()).rev() { let j = r.below(k + 1); edges.swap(k, j); }
                 nodes.push(GNode { name: names[i].into(), edges });
             }
             // `Graph { P, Q }` (no edge list at all) is read as a block function named Graph: keep one edge
@@ -371,7 +374,17 @@ impl<'a> ProgGen<'a> {
                 else { Loop { it: itn(&[&w, &v], call("enumerate", vec![id("M")])), idx: vec![(v.clone(), "lenM".into())], nums: vec![v], rows: vec![w], ..none } } }
             "strs" => Loop { it: it1(&v, id("S")), idx: vec![(v.clone(), "strs".into())], ..none },
             "setfn" => { let f = *self.r.pick(&["union", "intersection", "difference"]);
-                Loop { it: it1(&v, call(f, vec![id("A"), id("C")])), idx: vec![(v.clone(), "val10".into())], nums: vec![v], ..none } }
+                // operands of different lengths whose common elements come in a different relative order (and repeated
+                // in the longer one): the result follows the FIRST operand's order and multiplicity
+                let a_vals: Vec<V> = match self.get("A") { V::Arr(v) => v.clone(), _ => vec![] };
+                let other = match self.r.below(4) {
+                    0 => id("C"),
+                    1 => { let mut sel: Vec<V> = a_vals.iter().rev().cloned().collect(); if sel.len() > 1 { sel.truncate(sel.len() - 1); } E::Lit(V::Arr(sel)) }
+                    2 => { let mut sel = vec![a_vals[a_vals.len() - 1].clone()]; if self.r.chance(1, 2) { sel.push(a_vals[0].clone()); } if self.r.chance(1, 3) { sel.insert(0, V::Int(7)); } E::Lit(V::Arr(sel)) }
+                    _ => { let mut sel: Vec<V> = a_vals.iter().rev().cloned().collect(); sel.extend(a_vals.iter().cloned()); E::Lit(V::Arr(sel)) }
+                };
+                let args = if self.r.chance(1, 3) { vec![other, id("A")] } else { vec![id("A"), other] };
+                Loop { it: it1(&v, call(f, args)), idx: vec![(v.clone(), "val10".into())], nums: vec![v], ..none } }
             "nodes" => { let f = *self.r.pick(&["nodes", "V"]); Loop { it: it1(&v, call(f, vec![id("G")])), idx: vec![(v.clone(), "nodes".into())], nodes: vec![v], ..none } }
             "enum-nodes" => Loop { it: itn(&[&w, &v], call("enumerate", vec![call("nodes", vec![id("G")])])), idx: vec![(w.clone(), "nodes".into()), (v.clone(), "r5".into())], nums: vec![v], nodes: vec![w], ..none },
             "edges" => { let f = *self.r.pick(&["edges", "E"]); let u = self.fresh("u");
@@ -379,7 +392,7 @@ impl<'a> ProgGen<'a> {
                 else { Loop { it: itn(&[&w, &u], call(f, vec![id("G")])), idx: vec![(w, "nodes".into()), (u, "nodes".into())], ..none } } }
             "edges3" => { let u = self.fresh("u"); let c = self.fresh("c");
                 Loop { it: itn(&[&w, &u, &c], call("edges", vec![id("G")])), idx: vec![(w, "nodes".into()), (u, "nodes".into())], nums: vec![c], ..none } }
-            "neigh" => { let names: Vec<String> = match self.get("G") { V::Graph(ns) => ns.iter().map(|n| n.name.clone()).collect(), _ => vec!["P".into()] }; let nm = self.r.pick(&names).clone(); let u = self.fresh("u");
+            "neigh" => { let names: Vec<String> = match self.get("G") { V::Graph(ns) => ns.iter().map(|n| n.name.clone()).collect(), _ => vec!["S".into()] }; let nm = self.r.pick(&names).clone(); let u = self.fresh("u");
                 let f = *self.r.pick(&["neigh_edges_of", "N_of"]);
                 Loop { it: itn(&["_", &u], call(f, vec![E::Lit(V::Str(nm)), id("G")])), idx: vec![(u, "nodes".into())], ..none } }
             "inner-row" => { let rows: Vec<String> = outer.iter().flat_map(|l| l.rows.clone()).collect(); let row = self.r.pick(&rows).clone();
